@@ -785,6 +785,153 @@ Section C.
     intros Hk Hf n w r H. eapply (Hk (mkBlock kd)); [apply Forall_nil|reflexivity|exact Hf|]. apply Nseq_empty. exact H.
   Qed.
 
+  (* ================= loops ================= *)
+  Notation exloop := (exec_loop aden cden tden kval yden env).
+  Notation runloop := (run_loop aden cden tden kval yden env false).
+
+  Lemma runloop_mono n m c p body sk w r : n <= m -> runloop n c p body sk w = Some r -> runloop m c p body sk w = Some r.
+  Proof. induction 1 as [|m Hle IH]; auto. intros H. apply (proj2 (proj2 (run_mono1 aden cden tden kval yden env false m))). auto. Qed.
+
+  (* a native completion as the outcome of a callback *)
+  Definition flat (x : compl) : compl := match x with CRet _ w' => CDone GReturn w' | _ => x end.
+
+  Lemma N_flat n l w x : Forall srcok l -> ex n l w = Some x -> N (S n) l w = Some (flat x).
+  Proof.
+    intros Hl E. unfold RwBase.N. rewrite (@exm _ _ _ aden cden tden kval yden env n (S n) l w x (le_S _ _ (le_n n)) E).
+    destruct x as [g w'|sv w'|w'|w' pv|]; try reflexivity.
+    assert (sv = VSig GReturn) by (eapply ex_srcok_ret; eauto). subst sv. cbn [RwBase.norm]. apply rung_sig.
+  Qed.
+
+  Lemma atom_exec n a w y : exec n (SAtom a) w = Some y ->
+    match y with CDone g _ => g = GNormal | CRet _ _ | CStop _ => False | _ => True end.
+  Proof.
+    destruct n; [discriminate|]. rewrite exec_S. unfold lift. destruct (aden a (fst w)); intros H; inversion H; auto.
+  Qed.
+
+  (* the source loop over a native body and the seq loop over the rewritten body as a callback *)
+  Lemma loop_sim c p b fol : sim b fol -> Forall srcok b -> init_ok p = true ->
+    forall n w x, exloop n c p b w = Some x ->
+      exists m, runloop m (option_map CExp c) p (VDelay (TLit fol)) true w = Some (flat x).
+  Proof.
+    intros Hsim Hb Hp. induction n as [|n IH]; intros w x H; [discriminate|].
+    rewrite exec_loop_S in H. cbv beta zeta in H.
+    (* one iteration from the body on *)
+    assert (Hbody : forall w2 x2,
+      (match ex n b w2 with
+       | Some (CDone (GNormal | GContinue) w3) =>
+           after_normal (match p with None => Some (CDone GNormal w3) | Some x0 => exec n x0 w3 end) (fun w4 => exloop n c p b w4)
+       | Some (CDone GBreak w3) => Some (CDone GNormal w3)
+       | other => other end) = Some x2 ->
+      exists m, forall M, m <= M ->
+        (match rung M (VDelay (TLit fol)) w2 with
+         | Some (CDone (GNormal | GContinue) w3) => runloop M (option_map CExp c) p (VDelay (TLit fol)) false w3
+         | Some (CDone GBreak w3) => Some (CDone GNormal w3)
+         | other => other end) = Some (flat x2)).
+    { intros w2 x2 H2. destruct (ex n b w2) as [xb|] eqn:Eb; [|discriminate].
+      destruct (Hsim _ _ _ (N_flat _ _ Hb Eb)) as [m1 Hm1].
+      assert (Hrun : forall M, S (S m1) <= M -> rung M (VDelay (TLit fol)) w2 = Some (flat xb)).
+      { intros M HM. eapply runm; [exact HM|]. rewrite run_delay_S. exact Hm1. }
+      (* the post statement and the following iterations *)
+      assert (Hnext : forall w3, after_normal (match p with None => Some (CDone GNormal w3) | Some x0 => exec n x0 w3 end)
+                                   (fun w4 => exloop n c p b w4) = Some x2 ->
+                exists m, forall M, m <= M -> runloop M (option_map CExp c) p (VDelay (TLit fol)) false w3 = Some (flat x2)).
+      { intros w3 H3. destruct p as [ps|].
+        - destruct ps; try discriminate. destruct (exec n (SAtom a) w3) as [y|] eqn:Ey; [|discriminate].
+          pose proof (atom_exec _ _ _ Ey) as Hy.
+          destruct y as [g w4|sv w4|w4|w4 pv|]; try contradiction.
+          + subst g. cbn [after_normal] in H3. destruct (IH w4 x2 H3) as [m2 Hm2].
+            exists (S (n + m2)). intros M HM. destruct M as [|M]; [lia|]. rewrite run_loop_S. cbv beta zeta.
+            rewrite (@exm1 _ _ _ aden cden tden kval yden env n M _ w3 _ ltac:(lia) Ey).
+            pose proof (@runloop_mono m2 (S M) _ _ _ _ _ _ ltac:(lia) Hm2) as Hm. rewrite run_loop_S in Hm. exact Hm.
+          + cbn [after_normal] in H3. inversion H3; subst. exists (S n). intros M HM. destruct M as [|M]; [lia|].
+            rewrite run_loop_S. cbv beta zeta. rewrite (@exm1 _ _ _ aden cden tden kval yden env n M _ w3 _ ltac:(lia) Ey). reflexivity.
+          + cbn [after_normal] in H3. inversion H3; subst. exists (S n). intros M HM. destruct M as [|M]; [lia|].
+            rewrite run_loop_S. cbv beta zeta. rewrite (@exm1 _ _ _ aden cden tden kval yden env n M _ w3 _ ltac:(lia) Ey). reflexivity.
+        - cbn [after_normal] in H3. destruct (IH w3 x2 H3) as [m2 Hm2].
+          exists (S m2). intros M HM. destruct M as [|M]; [lia|].
+          pose proof (@runloop_mono m2 (S M) _ _ _ _ _ _ ltac:(lia) Hm2) as Hm. rewrite run_loop_S in Hm. rewrite run_loop_S. exact Hm. }
+      destruct xb as [g w3|sv w3|w3|w3 pv|].
+      - destruct g.
+        + destruct (Hnext w3 H2) as [m2 Hm2]. exists (S (S (m1 + m2))). intros M HM. rewrite (Hrun M ltac:(lia)). cbn [flat]. apply Hm2. lia.
+        + inversion H2; subst. exists (S (S m1)). intros M HM. rewrite (Hrun M HM). reflexivity.
+        + destruct (Hnext w3 H2) as [m2 Hm2]. exists (S (S (m1 + m2))). intros M HM. rewrite (Hrun M ltac:(lia)). cbn [flat]. apply Hm2. lia.
+        + inversion H2; subst. exists (S (S m1)). intros M HM. rewrite (Hrun M HM). reflexivity.
+        + inversion H2; subst. exists (S (S m1)). intros M HM. rewrite (Hrun M HM). reflexivity.
+      - inversion H2; subst. exists (S (S m1)). intros M HM. rewrite (Hrun M HM). reflexivity.
+      - inversion H2; subst. exists (S (S m1)). intros M HM. rewrite (Hrun M HM). reflexivity.
+      - inversion H2; subst. exists (S (S m1)). intros M HM. rewrite (Hrun M HM). reflexivity.
+      - inversion H2; subst. exists (S (S m1)). intros M HM. rewrite (Hrun M HM). reflexivity. }
+    destruct c as [cc|]; cbn [option_map].
+    - unfold lift in H. destruct (cden cc (fst w)) as [u bb|u pv|] eqn:Ec.
+      + destruct bb.
+        * destruct (Hbody _ _ H) as [m Hm]. exists (S m). rewrite run_loop_S. cbv beta zeta. unfold lift. rewrite Ec. apply Hm. lia.
+        * inversion H; subst. exists 1. rewrite run_loop_S. cbv beta zeta. unfold lift. rewrite Ec. reflexivity.
+      + inversion H; subst. exists 1. rewrite run_loop_S. cbv beta zeta. unfold lift. rewrite Ec. reflexivity.
+      + inversion H; subst. exists 1. rewrite run_loop_S. cbv beta zeta. unfold lift. rewrite Ec. reflexivity.
+    - destruct (Hbody _ _ H) as [m Hm]. exists (S m). rewrite run_loop_S. cbv beta zeta. apply Hm. lia.
+  Qed.
+
+  Lemma loop_retonly n c p b w sv w' : Forall srcok b -> init_ok p = true ->
+    exloop n c p b w = Some (CRet sv w') -> sv = VSig GReturn.
+  Proof.
+    intros Hb Hp H. eapply (proj2 (proj2 (proj2 (proj2 (srcok_retonly n)))) c p b w); eauto.
+    intros x ->. destruct x; try discriminate. constructor.
+  Qed.
+
+  Lemma sim_for c p b fol : sim b fol -> Forall srcok b -> init_ok p = true ->
+    sim [SFor None c p b] [SRet (XFor (option_map CExp c) p (XDelay (TLit fol)))].
+  Proof.
+    intros Hs Hb Hp. rewrite sim_rel. intros w r H.
+    destruct (TM_single_inv H) as [x [[n Hx] Hr]].
+    destruct n as [|n]; [discriminate|]. rewrite exec_S in Hx. cbn [after_normal] in Hx.
+    destruct (@loop_sim c p b fol Hs Hb Hp _ _ _ Hx) as [m Hm].
+    assert (r = flat x).
+    { destruct x as [g w'|sv w'|w'|w' pv|]; cbn in Hr; try exact Hr.
+      assert (sv = VSig GReturn) by (eapply loop_retonly; eauto). subst sv.
+      destruct Hr as [k Hk]. destruct k; [discriminate|]. rewrite rung_sig in Hk. inversion Hk. reflexivity. }
+    subst r. eapply TM_single; [apply EXS_ret; reflexivity|]. cbn [build normR Rel.normR].
+    destruct w as [u k]. cbn [fst snd]. exists (S m). rewrite run_S. exact Hm.
+  Qed.
+
+  (* the init statement of a loop runs first *)
+  Lemma sim_for_init i c p b rest : sim (SFor (Some i) c p b :: rest) (i :: SFor None c p b :: rest).
+  Proof.
+    rewrite sim_rel. intros w r H. destruct (TM_inv H) as [x [Hx Hr]].
+    eapply TM_intro; [|exact Hr]. clear Hr H.
+    destruct (EX_cons_inv Hx) as [y [[n Hy] Ha]].
+    destruct n as [|n]; [discriminate|]. rewrite exec_S in Hy. unfold after_normal in Hy.
+    destruct (exec n i w) as [yi|] eqn:Ei; [|discriminate].
+    eapply EX_cons; [exists n; exact Ei|].
+    destruct yi as [g w1| | | |]; cbn; try (inversion Hy; subst; exact Ha).
+    destruct g; try (inversion Hy; subst; exact Ha).
+    eapply EX_cons; [|exact Ha]. exists (S n). rewrite exec_S. exact Hy.
+  Qed.
+
+  (* replacing the statements that follow a block by simulating ones *)
+  Lemma Nseq_sim_rest n c l t w r : sim l t -> Nseq n c l w = Some r -> exists m, Nseq m c t w = Some r.
+  Proof.
+    intros Hs H. unfold Nseq in H. destruct (ex n c w) as [x|] eqn:E; [|discriminate].
+    assert (Hgo : forall w', N n l w' = Some r ->
+                  match x with
+                  | CDone GNormal w0 => w0 = w' | CRet sv w0 => rung n sv w0 = Some (CDone GNormal w') | _ => False end ->
+                  exists m, Nseq m c t w = Some r).
+    { intros w' Hl Hy. destruct (Hs _ _ _ Hl) as [m Hm]. exists (n + m). unfold Nseq.
+      rewrite (@exm _ _ _ aden cden tden kval yden env n (n + m) c w x ltac:(lia) E).
+      destruct x as [g w0|sv w0| | |]; try contradiction.
+      - destruct g; try contradiction. subst w0. eapply N_mono; [|exact Hm]. lia.
+      - rewrite (@runm _ _ _ aden cden tden kval yden env n (n + m) sv w0 _ ltac:(lia) Hy). eapply N_mono; [|exact Hm]. lia. }
+    destruct x as [g w0|sv w0|w0|w0 pv|].
+    - destruct g; try (exists n; unfold Nseq; rewrite E; exact H).
+      eapply (Hgo w0 H). reflexivity.
+    - destruct (rung n sv w0) as [z|] eqn:Er; [|discriminate].
+      destruct z as [g w1| | | |]; try (exists n; unfold Nseq; rewrite E, Er; exact H).
+      destruct g; try (exists n; unfold Nseq; rewrite E, Er; exact H).
+      eapply (Hgo w1 H). reflexivity.
+    - exists n. unfold Nseq. rewrite E. exact H.
+    - exists n. unfold Nseq. rewrite E. exact H.
+    - exists n. unfold Nseq. rewrite E. exact H.
+  Qed.
+
   (* ================= supported statements (boolean, by fuel) ================= *)
   Lemma supp_S k s :
     supp (S k) s =
@@ -799,6 +946,7 @@ Section C.
           | EElse b => forallb (supp k) b
           | EElif x => is_if x && supp k x
           end
+      | SFor i c p b => init_ok i && init_ok p && forallb (supp k) b
       | _ => false
       end.
   Proof. reflexivity. Qed.
@@ -818,6 +966,9 @@ Section C.
     - apply andb_prop in H. destruct H as [H He]. destruct el; constructor.
       + apply HL; exact He.
       + apply andb_prop in He. destruct He as [_ He]. apply IH; exact He.
+    - apply andb_prop in H. destruct H as [H Hb]. apply andb_prop in H. destruct H as [Hi Hp]. apply init_ok_srcok; exact Hi.
+    - apply andb_prop in H. destruct H as [H Hb]. apply andb_prop in H. destruct H as [Hi Hp]. apply init_ok_srcok; exact Hp.
+    - apply andb_prop in H. destruct H as [H Hb]. apply HL; exact Hb.
     - destruct e; try discriminate. constructor.
   Qed.
 
@@ -831,9 +982,11 @@ Section C.
     { intros l Hl. rewrite forallb_forall in *. intros x Hx. apply IH. auto. }
     rewrite supp_S in H. rewrite (supp_S (S k)).
     destruct s; try discriminate; auto.
-    apply andb_prop in H. destruct H as [H He]. apply andb_prop in H. destruct H as [Hi Ht].
-    rewrite Hi, (HL _ Ht). cbn [andb]. destruct el; auto.
-    apply andb_prop in He. destruct He as [He1 He2]. rewrite He1, (IH _ He2). reflexivity.
+    - apply andb_prop in H. destruct H as [H He]. apply andb_prop in H. destruct H as [Hi Ht].
+      rewrite Hi, (HL _ Ht). cbn [andb]. destruct el; auto.
+      apply andb_prop in He. destruct He as [He1 He2]. rewrite He1, (IH _ He2). reflexivity.
+    - apply andb_prop in H. destruct H as [H Hb]. apply andb_prop in H. destruct H as [Hi Hp].
+      rewrite Hi, Hp, (HL _ Hb). reflexivity.
   Qed.
 
   (* ================= pass2 is a forward simulation ================= *)
@@ -901,12 +1054,47 @@ Section C.
       end.
   Proof. reflexivity. Qed.
 
+  Lemma rw_for_S f s init c post b cur k :
+    rw_for (S f) s init c post b cur k =
+      (body <- rw_stmts f b (mkBlock KFor) ;;
+       let trivialBody := mustNoYield body in
+       if negb (hasYo init) && negb (hasYo post) && trivialBody then c1 <- push cur s KTrivial ;; k c1 else
+       let after := fun (c2 : blk) =>
+         if trivialBody && negb (hasYo post) then
+           comb c2 (fun c3 => c4 <- push c3 (SFor None c post b) KTrivial ;; k c4)
+         else if negb (hasYo post) then
+           comb c2 (fun c3 => c4 <- pushReturn c3 (XFor (option_map CExp c) post (XDelay (TLit (bstmts body)))) KFor ;; k c4)
+         else
+           match post with
+           | None => Err E_UNSUPPORTED
+           | Some p =>
+               body' <-
+                 (if combineRequired body then
+                    pb <- rw_stmt f p true (mkBlock KDelay) (fun x => OK x) ;;
+                    match lastStmt pb with
+                    | Some (SRet _) =>
+                        b1 <- gln body ;;
+                        pushReturn (mkBlock (bkind body)) (XCombine (XDelay (TLit (bstmts b1))) (XDelay (TLit (bstmts pb)))) KCombine
+                    | _ => Err E_POST_NOT_RETURN
+                    end
+                  else rw_stmt f p true (markCombined body) (fun x => OK x)) ;;
+               comb c2 (fun c3 => c4 <- pushReturn c3 (XFor (option_map CExp c) None (XDelay (TLit (bstmts body')))) KFor ;; k c4)
+           end in
+       match init with
+       | None => after cur
+       | Some i => rw_stmt f i false cur after
+       end).
+  Proof. reflexivity. Qed.
+
+  Lemma init_ok_hasYo i : init_ok i = true -> hasYo i = false.
+  Proof. destruct i as [[]|]; try discriminate; reflexivity. Qed.
+
   Lemma bind_ok A B (m : res A) (f : A -> res B) b : bind m f = OK b -> exists a, m = OK a /\ f a = OK b.
   Proof. destruct m; cbn; [eauto|discriminate]. Qed.
 
   (* the continuation rw_stmts hands to rw_stmt *)
   Lemma K_stmts f rest :
-    (forall cur B, Forall srcok (bstmts cur) -> rw_stmts f rest cur = OK B ->
+    (forall cur B, Forall srcok (bstmts cur) -> combineRequired cur = false -> rw_stmts f rest cur = OK B ->
         forall n w r, Nseq n (bstmts cur) rest w = Some r -> exists m, N m (bstmts B) w = Some r) ->
     Kspec' (fun fol =>
       if match rest with [] => true | _ => false end
@@ -916,7 +1104,7 @@ Section C.
     intros IH. destruct rest as [|s2 rest2].
     - intros c B _ HB n w r H. eapply Kspec_nil_gln; [|exact H].
       destruct (bkind c); auto; inversion HB; auto.
-    - apply comb_spec. intros c B Hc _ HB. eapply IH; eauto.
+    - apply comb_spec. intros c B Hc Hcr HB. eapply IH; eauto.
   Qed.
 
   Lemma els_sim_trans_else b b' : sim b b' -> els_sim (EElse b) (unwrapIf b').
@@ -925,30 +1113,34 @@ Section C.
   Qed.
 
   Lemma pass2_correct f :
-    (forall k ss cur B, supps k ss = true -> Forall srcok (bstmts cur) ->
+    (forall k ss cur B, supps k ss = true -> Forall srcok (bstmts cur) -> combineRequired cur = false ->
         rw_stmts f ss cur = OK B ->
         forall n w r, Nseq n (bstmts cur) ss w = Some r -> exists m, N m (bstmts B) w = Some r) /\
-    (forall k s isLast cur kk rest B, supp k s = true -> supps k rest = true -> Forall srcok (bstmts cur) ->
+    (forall k s isLast cur kk rest B, supp k s = true -> supps k rest = true -> Forall srcok (bstmts cur) -> combineRequired cur = false ->
         (isLast = true -> rest = []) -> Kspec' kk rest -> rw_stmt f s isLast cur kk = OK B ->
         forall n w r, Nseq n (bstmts cur) (s :: rest) w = Some r -> exists m, N m (bstmts B) w = Some r) /\
     (forall k s cur c', supp k s = true -> is_if s = true -> Forall srcok (bstmts cur) ->
         rw_if f s cur = OK c' ->
-        exists s', bstmts c' = bstmts cur ++ [s'] /\ sim [s] [s'] /\ binv c' /\ is_if s' = true).
+        exists s', bstmts c' = bstmts cur ++ [s'] /\ sim [s] [s'] /\ binv c' /\ is_if s' = true) /\
+    (forall k init c post b cur kk rest B, supp k (SFor init c post b) = true -> supps k rest = true ->
+        Forall srcok (bstmts cur) -> combineRequired cur = false -> Kspec' kk rest ->
+        rw_for f (SFor init c post b) init c post b cur kk = OK B ->
+        forall n w r, Nseq n (bstmts cur) (SFor init c post b :: rest) w = Some r -> exists m, N m (bstmts B) w = Some r).
   Proof.
-    induction f as [|f [IH1 [IH2 IH3]]]; [repeat split; intros; discriminate|].
+    induction f as [|f [IH1 [IH2 [IH3 IH4]]]]; [repeat split; intros; discriminate|].
     (* sub-blocks: a rewritten statement list simulates the source list *)
     assert (Hsub : forall k l kd B, supps k l = true -> rw_stmts f l (mkBlock kd) = OK B -> sim l (bstmts B)).
-    { intros k l kd B Hl HB n w r H. eapply (IH1 k l (mkBlock kd)); [exact Hl|apply Forall_nil|exact HB|]. apply Nseq_empty. exact H. }
+    { intros k l kd B Hl HB n w r H. eapply (IH1 k l (mkBlock kd)); [exact Hl|apply Forall_nil|reflexivity|exact HB|]. apply Nseq_empty. exact H. }
     repeat split.
     - (* rw_stmts *)
-      intros k ss cur B Hss Hcur HB. rewrite rw_stmts_S in HB. destruct ss as [|s rest].
+      intros k ss cur B Hss Hcur Hcr HB. rewrite rw_stmts_S in HB. destruct ss as [|s rest].
       + intros n w r H. eapply Kspec_nil_gln; [|exact H]. destruct (bkind cur); auto; inversion HB; auto.
       + unfold supps in Hss. cbn [forallb] in Hss. apply andb_prop in Hss. destruct Hss as [Hs Hrest].
-        eapply IH2; [exact Hs|exact Hrest|exact Hcur| |apply K_stmts|exact HB].
+        eapply IH2; [exact Hs|exact Hrest|exact Hcur|exact Hcr| |apply K_stmts|exact HB].
         * destruct rest; [reflexivity|discriminate].
-        * intros c B' Hc HB'. eapply IH1; eauto.
+        * intros c B' Hc Hcr' HB'. eapply IH1; eauto.
     - (* rw_stmt *)
-      intros k s isLast cur kk rest B Hs Hrest Hcur Hlast Hk HB.
+      intros k s isLast cur kk rest B Hs Hrest Hcur Hcr Hlast Hk HB.
       destruct k as [|k]; [discriminate|]. rewrite supp_S in Hs. rewrite rw_stmt_S in HB.
       assert (Hsrc : srcok s) by (eapply supp_srcok with (k:=S k); rewrite supp_S; exact Hs).
       assert (Hrsrc : Forall srcok rest) by (eapply supps_srcok; eauto).
@@ -989,6 +1181,8 @@ Section C.
         destruct isLast.
         -- rewrite (Hlast eq_refl) in *. eapply Kspec_nil_gln; [left; exact HB'|exact Hm].
         -- eapply Hk; [exact Hbinv|exact HB'|exact Hm].
+      + (* for *)
+        eapply (IH4 (S k)); eauto.
       + (* break *)
         intros n w r H. rewrite (push_stmts _ _ _ HB). eapply Nseq_branch; eauto.
       + (* continue *)
@@ -1026,5 +1220,37 @@ Section C.
         destruct (mustNoYield body && mustNoYield els); [apply Hsame; exact HB''|].
         eapply Hnew; [exact HB''|]. cbn in Ea. rewrite Ea. unfold unwrapIf.
         destruct alt'; try discriminate. cbn. exact Sa.
+    - (* rw_for *)
+      intros k init c post b cur kk rest B Hs Hrest Hcur Hcr Hk HB.
+      destruct k as [|k]; [discriminate|]. pose proof Hs as Hs0. rewrite supp_S in Hs.
+      apply andb_prop in Hs. destruct Hs as [Hs Hb]. apply andb_prop in Hs. destruct Hs as [Hi Hp].
+      assert (Hsrc : srcok (SFor init c post b)) by (eapply supp_srcok; exact Hs0).
+      assert (Hbsrc : Forall srcok b) by (eapply supps_srcok; exact Hb).
+      rewrite rw_for_S in HB. destruct (bind_ok _ _ HB) as [body [Hbody HB']]. clear HB. cbv zeta in HB'.
+      rewrite (init_ok_hasYo _ Hi), (init_ok_hasYo _ Hp) in HB'. cbn [negb andb] in HB'.
+      assert (Sb : sim b (bstmts body)) by (eapply Hsub; eauto).
+      destruct (mustNoYield body) eqn:Etriv.
+      + (* nothing yields: the loop stays native *)
+        destruct (bind_ok _ _ HB') as [c1 [Hc1 HkB]]. intros n w r H.
+        destruct (@Nseq_shift _ _ _ _ _ _ Hcur Hsrc H) as [m Hm].
+        eapply Hk; [eapply binv_push_triv; eauto|exact HkB|]. rewrite (push_stmts _ _ _ Hc1). exact Hm.
+      + (* the body becomes the callback of seq.For / While / Loop *)
+        cbn [andb] in HB'.
+        set (k' := fun c3 => c4 <- pushReturn c3 (XFor (option_map CExp c) post (XDelay (TLit (bstmts body)))) KFor ;; kk c4) in HB'.
+        assert (Hk' : Kspec0 k' (SFor None c post b :: rest)).
+        { intros c3 B3 Hc3 _ HB3 n w r H. unfold k' in HB3. destruct (bind_ok _ _ HB3) as [c4 [Hc4 HkB]].
+          assert (Hsrc0 : srcok (SFor None c post b)).
+          { inversion Hsrc; subst. constructor; auto. intros x Hx; discriminate. }
+          destruct (@Nseq_shift_sim _ _ _ _ _ _ _ Hc3 Hsrc0 (@sim_for c post b (bstmts body) Sb Hbsrc Hp) H) as [m Hm].
+          eapply Hk; [eapply binv_pushReturn; eauto|exact HkB|]. rewrite (pushReturn_stmts _ _ _ Hc4). exact Hm. }
+        pose proof (comb_spec Hk') as Hafter.
+        destruct init as [i|].
+        * destruct i; try discriminate.
+          intros n w r H. destruct (@Nseq_sim_rest _ _ _ _ _ _ (sim_for_init (SAtom a) c post b rest) H) as [n1 H1].
+          destruct f as [|f']; [discriminate|]. rewrite rw_stmt_S in HB'.
+          destruct (bind_ok _ _ HB') as [c1 [Hc1 HkB]].
+          destruct (@Nseq_shift _ _ _ _ _ _ Hcur (ok_atom a) H1) as [m Hm].
+          eapply Hafter; [eapply (@binv_push_triv cur (SAtom a) c1); [exact Hcur|constructor|exact Hc1]|exact HkB|]. rewrite (push_stmts _ _ _ Hc1). exact Hm.
+        * intros n w r H. eapply (Hafter cur B); [left; split; assumption|exact HB'|exact H].
   Qed.
 End C.
